@@ -788,6 +788,10 @@ def index(base: T, idx: Tuple[T, ...], ranks: Optional[RankEnv] = None) -> T:
     base = as_term(base)
     if isinstance(base, PW):
         return PW([(g, index(v, idx, ranks)) for g, v in base.pieces])
+    if isinstance(base, Rep) and isinstance(base.seq, Lst) and len(base.seq.elems) == 1 and len(idx) == 1 and not isinstance(idx[0], Slc):
+        return base.seq.elems[0]                           # ([e] * n)[k] == e for a position k of the list
+    if isinstance(base, Range) and len(idx) == 1 and not isinstance(idx[0], Slc):
+        return add(base.lo, mul(idx[0], base.step))       # element k of range(lo, hi, step), 0 <= k < len
     if isinstance(base, Tup) and len(idx) == 1:
         cv = idx[0].const_value() if isinstance(idx[0], Poly) else None
         if cv is not None and cv.denominator == 1 and -len(base.elems) <= cv < len(base.elems):
@@ -877,6 +881,11 @@ def make_app(fn: str, args, kw=None) -> T:
         return mul(args[0], args[0])
     if fn in ("numpy.sqrt", "math.sqrt", "sqrt") and len(args) == 1:
         return sqrt(args[0])
+    if fn == "math.isqrt" and len(args) == 1 and not kw:
+        t = sqrt(args[0])
+        if isinstance(t, Poly) and not any(isinstance(x, App) for x in subterms(t)):
+            return t                 # integer square root of a perfect square
+        return App(fn, args)
     if fn == "truncdiv" and len(args) == 2:
         return to_int(div(args[0], args[1]))
     if fn == "int" and len(args) == 1:
@@ -911,12 +920,60 @@ def make_app(fn: str, args, kw=None) -> T:
         # commutative
         a, b = sorted(args, key=lambda t: t.key)
         return App(fn.split(".")[1], (a, b))
+    if fn == "floordiv" and len(args) == 2:
+        return floordiv(args[0], args[1])
+    if fn in ("builtins.zip", "builtins.map", "builtins.enumerate") and not kw:
+        z = _zip_like(fn, args)
+        if z is not None:
+            return z
     if fn in ("builtins.list", "builtins.tuple") and len(args) == 1 and isinstance(args[0], Comp) and args[0].kind == "gen":
         c = args[0]
         return Comp(c.elt, c.var, c.iter, c.conds, "list")     # materialised generator
     if fn == "builtins.list" and len(args) == 1 and isinstance(args[0], (Lst, Cat, Rep, Comp)):
         return args[0]
     return App(fn, args, kw)
+
+
+_ZIPVAR = [0]
+
+
+def _is_seq_term(t: T) -> bool:
+    if isinstance(t, Rep):
+        return isinstance(t.seq, Lst) and len(t.seq.elems) == 1
+    return isinstance(t, (Range, Comp, Lst)) and not (isinstance(t, Comp) and (t.conds or t.kind not in ("list", "gen")))
+
+
+def _zip_like(fn: str, args) -> Optional[T]:
+    """zip(A, B, ..), map(f, A, B, ..), enumerate(A) over sequences whose length is known symbolically: a generator-kind
+    comprehension over the common index range.  zip(*[ (a_k, b_k) for k ]) is the pair of the component lists."""
+    if fn == "builtins.zip" and len(args) == 1 and isinstance(args[0], App) and args[0].fn == "*" and len(args[0].args) == 1:
+        inner = args[0].args[0]
+        if isinstance(inner, Comp) and not inner.conds and isinstance(inner.elt, Tup):
+            return Tup([Comp(e, inner.var, inner.iter, [], "list") for e in inner.elt.elems])
+        return None
+    f = None
+    seqs = list(args)
+    if fn == "builtins.map":
+        if len(args) < 2 or not isinstance(args[0], Sym):
+            return None
+        f, seqs = args[0], list(args[1:])
+    if not seqs or not all(_is_seq_term(a) for a in seqs):
+        return None
+    n = length(seqs[0])
+    if any(length(a) != n for a in seqs[1:]):
+        return None
+    if isinstance(n, App):
+        return None
+    _ZIPVAR[0] += 1
+    k = Sym(f"$z{_ZIPVAR[0]}")
+    elems = [index(a, (k,)) for a in seqs]
+    if fn == "builtins.zip":
+        elt = Tup(elems)
+    elif fn == "builtins.enumerate":
+        elt = Tup([k, elems[0]])
+    else:
+        elt = App(f.name, elems)
+    return Comp(elt, k, Range(ZERO, n), [], "gen")
 
 
 def transpose(x: T) -> T:
@@ -953,12 +1010,73 @@ def length(s: T) -> T:
     if isinstance(s, Range):
         if s.step == ONE:
             return add(s.hi, neg(s.lo))  # assumes hi >= lo (recorded by the rules that use it)
+        span = add(s.hi, neg(s.lo))
+        q = _exact_quotient(span, s.step)
+        if q is not None:
+            return q                      # range(lo, lo + q*step, step) has q elements (step > 0, q >= 0)
+        q1 = _exact_quotient(add(span, const(-1)), s.step)
+        if q1 is not None:
+            return add(q1, ONE)           # range(lo, lo + q*step + 1, step): ceil((q*step + 1) / step) = q + 1 for step >= 1
         return App("len", (s,))
     return App("len", (s,))
 
 
+def _exact_quotient(num: T, den: T) -> Optional[T]:
+    """num / den when den is a single symbol (or a positive constant) that divides every term of the polynomial num."""
+    num, den = as_term(num), as_term(den)
+    if not isinstance(num, Poly):
+        return None
+    dc = den.const_value() if isinstance(den, Poly) else None
+    if dc is not None:
+        if dc > 0 and all((c / dc).denominator == 1 for _m, c in num.terms):
+            return div(num, den)
+        return None
+    atom = None
+    if isinstance(den, Poly) and len(den.terms) == 1 and len(den.terms[0][0]) == 1 and den.terms[0][0][0][1] == 1 and den.terms[0][1] == 1:
+        atom = den.terms[0][0][0][0]
+    elif isinstance(den, (Sym, Idx, Attr)):
+        atom = den
+    if atom is None or not num.terms:
+        return None
+    for mono, _c in num.terms:
+        if not any(a == atom and e >= 1 for a, e in mono):
+            return None
+    return div(num, den)
+
+
+def _always_divisible(num: T, den: int) -> bool:
+    """num (a polynomial with integer coefficients in index-like atoms) is a multiple of den for every integer assignment:
+    decided by evaluating it modulo den over all residues of its atoms (r*(r-1), n*(n+1) are even ...)."""
+    if not isinstance(num, Poly) or den <= 1 or den > 6:
+        return False
+    atoms = []
+    for mono, c in num.terms:
+        if c.denominator != 1:
+            return False
+        for a, e in mono:
+            if not isinstance(a, (Sym, Idx, Attr)) or e < 0 or e != int(e):
+                return False
+            if a.key not in [x.key for x in atoms]:
+                atoms.append(a)
+    if len(atoms) > 6:
+        return False
+    import itertools
+    for vals in itertools.product(range(den), repeat=len(atoms)):
+        env = {a.key: v for a, v in zip(atoms, vals)}
+        tot = 0
+        for mono, c in num.terms:
+            t = int(c)
+            for a, e in mono:
+                t *= env[a.key] ** int(e)
+            tot += t
+        if tot % den:
+            return False
+    return True
+
+
 def to_int(x: T) -> T:
-    """int(x).  int(p / c) for a positive integer constant c is truncdiv(p, c)."""
+    """int(x).  int(p / c) for a positive integer constant c is truncdiv(p, c) - or exactly p / c when p is always a
+    multiple of c."""
     if isinstance(x, Poly):
         cv = x.const_value()
         if cv is not None:
@@ -971,6 +1089,8 @@ def to_int(x: T) -> T:
             # integer combination of atoms: int() is the identity on integers; kept explicit
             return App("int", (x,))
         num = mul(x, const(den))
+        if _always_divisible(num, den):
+            return App("int", (x,))
         return App("truncdiv", (num, const(den)))
     return App("int", (x,))
 
@@ -982,7 +1102,11 @@ def _gcd(a, b):
 
 
 def floordiv(a, b) -> T:
-    return App("floordiv", (as_term(a), as_term(b)))
+    a, b = as_term(a), as_term(b)
+    bc = b.const_value() if isinstance(b, Poly) else None
+    if bc is not None and bc.denominator == 1 and bc > 0 and _always_divisible(a, int(bc)):
+        return div(a, b)           # exact: the quotient is the polynomial a / b
+    return App("floordiv", (a, b))
 
 
 def pieces_of(t: T) -> List[Tuple[T, T]]:
